@@ -62,6 +62,9 @@ def do_eval(d, checks, tier="quick", skip_tests=False):
             rct, ot, et = sh([PY, "-m", "pytest", "-q", "-p", "no:cacheprovider", "--timeout=900", "-x"], cwd=repo, env=env)
             conf["suite_with_patch"] = (ot.strip().splitlines() or ["?"])[-1]
             conf["suite_passes"] = rct == 0
+        old = meta.get("confirmed", {})
+        if skip_tests and "suite_passes" in old:
+            conf["suite_with_patch"], conf["suite_passes"] = old["suite_with_patch"], old["suite_passes"]
         meta["confirmed"] = conf
         caught = meta.get("caught_by", {})
         for c in checks:
